@@ -62,6 +62,7 @@ class Fx:
         self.family = family
         self.awaits = awaits
         self.name = None
+        self.via_macro = False  # the decorated fn is produced by macro_rules! and its return type arrives as a `$ret:ty` fragment
 
     def attr(self, k):
         for n, v in self.attrs:
@@ -118,6 +119,13 @@ def render(fx):
     mac = 'cache' if fx.macro == 'sync' else 'cache_async'
     al = ', '.join('%s = %s' % (n, v) for n, v in fx.attrs)
     attr = '#[%s(%s)]' % (mac, al) if fx.attrs else '#[%s]' % mac
+    if fx.via_macro:
+        ret = fx.ret
+        fx.ret = '$ret'
+        text = 'macro_rules! mk_%s { ($ret:ty) => { %s\n%s %s } }\nmk_%s!(%s);\n' % (
+            fx.name, attr, sig(fx), body_for(ret, fx.macro == 'async', fx.awaits), fx.name, ret)
+        fx.ret = ret
+        return text
     return '%s\n%s %s\n' % (attr, sig(fx), body_for(fx.ret, fx.macro == 'async', fx.awaits))
 
 
@@ -213,6 +221,12 @@ def families(macro):
         if macro == 'sync':
             out.append(Fx(macro, A(('scope', '"thread"')), ['i32'], None, sp, 'R'))
             out.append(Fx(macro, A(('scope', '"thread"'), ('max_memory', '"2KB"'), ('limit', '3')), ['i32'], None, sp, 'R'))
+    # R (cont.): the function comes out of a macro_rules! expansion, return type passed as a `ty` fragment
+    for at in ([[], A(('max_memory', '"2KB"'))] + ([A(('scope', '"thread"')), A(('scope', '"thread"'), ('max_memory', '"2KB"'))] if macro == 'sync' else [])):
+        for sp in ('Result<i32, String>', 'i32'):
+            f = Fx(macro, at, ['i32'], None, sp, 'R')
+            f.via_macro = True
+            out.append(f)
     # P: cache_if
     for pred in ['keep_a', 'preds::keep_b']:
         for ret in ['i32', 'Result<i32, String>']:
